@@ -17,7 +17,7 @@ T_FACTORY = {
     "C15": (["T_C15_Recorded"], ["T_C15_FirstAvail", "T_C15_InPolicy", "T_C15_OutPolicy", "T_C15_PutWhereOffered"]),
     "C16": ([], ["T_C16_Recipe", "T_C16_SplitterEmits", "T_C16_SplitterDone"]),
     "C17": (["T_C17_NonNeg", "T_C17_SumT", "T_C17_Setup", "T_C17_Truth"], []),
-    "C18": (["T_C18_Counters", "T_C18_AvgOccupancy", "T_C18_AvgOccupancyMid", "T_C18_CycleTime", "T_C18_Monotone", "T_C18_CreationStamp"],
+    "C18": (["T_C18_Counters", "T_C18_CountersEOI", "T_C18_AvgOccupancy", "T_C18_AvgOccupancyMid", "T_C18_CycleTime", "T_C18_Monotone", "T_C18_CreationStamp"],
             ["T_C18_CounterEvents"]),
     "C20": (["T_C20_NoCrash", "T_C20_FiniteInstant", "T_C20_Rejects"], []),
 }
